@@ -83,6 +83,7 @@ Print Assumptions C08_chain_ranges_nested.
 From Flocq Require Import Core BinarySingleNaN PrimFloat.
 From PV Require Import proofs.FloatFacts proofs.SampleFloat.
 From PV Require Import gen.GenFns proofs.SourceFacts.
+From PV Require Import proofs.SampleFloat proofs.RangeInst proofs.RatioFloat.
 
 Theorem C08_F_sample_finite :
   forall (h : handle NumF) (v step g : F), ffin v -> ffin step -> ffin g -> ffin (h_min NumF h)
@@ -108,4 +109,36 @@ Theorem C08_source_translated :
   gen_fns_problem = ""%string.
 Proof. exact source_translated. Qed.
 Print Assumptions C08_source_translated.
+
+
+Theorem C08_ranges_binary64_unconditional :
+  forall (fexp : F -> F) (score : N -> list F -> option F) (c : cfg NumF) (hs0 : list (handle
+    NumF)) (ps : list (carrier NumF)) (hs : list (handle NumF)) (s0 : carrier NumF) (draws :
+    list (draw NumF)), let st0 := init NumF c ps hs s0 in same_ranges NumF hs0 hs -> compatible
+    NumF hs0 -> (forall h : handle NumF, In h hs0 -> h_cell NumF h < Datatypes.length ps /\ inrF
+    (h_min NumF h) (h_max NumF h) (h_min NumF h)) -> in_ranges NumF inrF hs0 ps -> moderate hs0
+    -> ffin (max_step NumF c) -> fmag (max_step NumF c) 300 -> Forall draw_ok draws -> let st'
+    := run NumF fexp score c st0 draws in in_ranges NumF inrF hs0 (params NumF st') /\ untouched
+    NumF hs0 ps (params NumF st').
+Proof. exact C08_ranges_binary64_unconditional. Qed.
+Print Assumptions C08_ranges_binary64_unconditional.
+
+Theorem C08_no_sample_is_nan :
+  forall (fexp : F -> F) (score : N -> list F -> option F) (c : cfg NumF) (hs0 : list (handle
+    NumF)) (draws : list (draw NumF)) (st : ost NumF), same_ranges NumF hs0 (handles NumF st) ->
+    compatible NumF hs0 -> (forall h : handle NumF, In h hs0 -> h_cell NumF h < Datatypes.length
+    (params NumF st) /\ inrF (h_min NumF h) (h_max NumF h) (h_min NumF h)) -> in_ranges NumF
+    inrF hs0 (params NumF st) -> moderate hs0 -> ffin (max_step NumF c) -> fmag (max_step NumF
+    c) 300 -> fposn (ratio NumF st) -> fleb (ratio NumF st) 1 = true -> Forall draw_ok draws ->
+    all_samples_good NumF fexp score (fun x : carrier NumF => fnan x = false) c st draws.
+Proof. exact F_all_samples_good. Qed.
+Print Assumptions C08_no_sample_is_nan.
+
+Theorem C08_ratio_in_unit_interval_binary64 :
+  forall (fexp : F -> F) (score : N -> list F -> option F) (c : cfg NumF) (ps : list (carrier
+    NumF)) (hs : list (handle NumF)) (s0 : carrier NumF) (draws : list (draw NumF)), let r :=
+    ratio NumF (run NumF fexp score c (init NumF c ps hs s0) draws) in fposn r /\ fleb r 1 =
+    true.
+Proof. exact F_ratio_in_unit_interval. Qed.
+Print Assumptions C08_ratio_in_unit_interval_binary64.
 
